@@ -946,7 +946,7 @@ func mutate(r *rand.Rand, base string) string {
 func TestVerifC24(t *testing.T) {
 	c := kit.New("C24", "exploration")
 	defer c.Done(t)
-	c.Rule(fmt.Sprintf("inputs: (1) every byte string of length <= %d over the covering alphabet %q (one representative per character class any validator distinguishes; sharded by enumeration index) given to all five single-string validators and, as app and hook name, to snap.ValidateApp/ValidateHook, and (length <= %d) placed in the snap and in the component slot of a <snap>+<comp> name; (2) every string of length <= %d over the same alphabet substituted into each of %d slots of security-tag templates (instance, key, component, app, hook, the literals, separators, prefix, suffix); (3) names/keys/components/tags of boundary lengths (39/40/41, 10/11, 50..53, 255/256/257, 1000, 5000) built from valid and almost-valid patterns; (4) seeded random mutations (1-3 edits over a wider alphabet) of valid names, instances, components and tags; (5) snap.yaml documents with generated app, hook, component names. Strings containing NUL are never sent (a C string cannot carry one). non-trivial = a distinct input that at least one of the compared implementations ACCEPTS (names, components), a distinct (tag, instance, component) triple accepted by snap-confine or parsed-as-such by the daemon, or a distinct (instance, component, app/hook name) accepted by snap.ValidateApp/ValidateHook; inputs that every implementation rejects are evaluated and compared but not counted. Enumerated inputs are distinct by construction.", exhaustiveLen(), alphabet, compSlotLen(), tagSlotLen(), numTemplates))
+	c.Rule(fmt.Sprintf("inputs: (1) every byte string of length <= %d over the covering alphabet %q (one representative per character class any validator distinguishes; sharded by enumeration index) given to all five single-string validators, and (length <= %d) as app and hook name to snap.ValidateApp/ValidateHook and placed in the snap and in the component slot of a <snap>+<comp> name; (2) every string of length <= %d over the same alphabet substituted into each of %d slots of security-tag templates (instance, key, component, app, hook, the literals, separators, prefix, suffix); (3) names/keys/components/tags of boundary lengths (39/40/41, 10/11, 50..53, 255/256/257, 1000, 5000) built from valid and almost-valid patterns; (4) seeded random mutations (1-3 edits over a wider alphabet) of valid names, instances, components and tags; (5) snap.yaml documents with generated app, hook, component names. Strings containing NUL are never sent (a C string cannot carry one). non-trivial = a distinct input that at least one of the compared implementations ACCEPTS (names, components), a distinct (tag, instance, component) triple accepted by snap-confine or parsed-as-such by the daemon, or a distinct (instance, component, app/hook name) accepted by snap.ValidateApp/ValidateHook; inputs that every implementation rejects are evaluated and compared but not counted. Enumerated inputs are distinct by construction.", exhaustiveLen(), alphabet, compSlotLen(), tagSlotLen(), numTemplates))
 	c.Assume("the process locale of snap-confine/snap-update-ns is the C locale (neither calls setlocale), so islower/isdigit/regexec are byte-wise; the driver runs with LC_ALL=C and never calls setlocale")
 	c.Assume("snap-confine's tag length limit is 256 bytes (SNAP_SECURITY_TAG_MAX_LEN); tags longer than that are sent for the sanitizers but not compared")
 	c.Assume("for the tag clause the given instance/component range over names that naming.ValidateInstance/ValidateSnap accept (three-way agreement of those is judged separately on the same strings)")
@@ -1010,9 +1010,9 @@ func TestVerifC24(t *testing.T) {
 		if len(s) <= compSlotLen() {
 			m.nameQuery("foo+"+s, idx, "exhaustive-component-slot")
 			m.nameQuery(s+"+cc", idx, "exhaustive-component-slot")
+			// the same string as app / hook name of a snap the daemon accepts
+			m.appHook(s, pools, idx, "exhaustive")
 		}
-		// the same string as app / hook name of a snap the daemon accepts
-		m.appHook(s, pools, idx, "exhaustive")
 		if len(s) <= 3 && utf8.ValidString(s) {
 			yamlNames = append(yamlNames, s)
 		}
